@@ -279,7 +279,7 @@ def check_case(ctx, case_seed):
 
 def run(ctx):
     rnd = ctx.rng('decl')
-    n = {'quick': 2500, 'thorough': 60000}[ctx.tier] // ctx.nshards
+    n = {'quick': 4000, 'thorough': 400000}[ctx.tier] // ctx.nshards
     for _ in range(n):
         if ctx.out_of_time('declared wrappers'):
             break
